@@ -4,6 +4,7 @@ import GoBk.Gen.Consts
 import GoBk.Gen.CurveIR
 import GoBk.Gen.Table
 import GoBk.Model.IR
+import GoBk.Model.IRWrap
 /-
   Driver ops on the REGENERATED code: `field.*` (word-level field operations of Gen/Field.lean),
   `jac.*` (the point-arithmetic IR of Gen/CurveIR.lean run by `GoBk.IR`) and `table.get`
@@ -126,6 +127,28 @@ def runFieldOp (op : String) (a : List String) : Option String :=
   | "field.isodd", [x] => do let x ← parseFV x; pure ("ok " ++ b2s (isOdd x))
   | "field.eq", [x, y] => do let x ← parseFV x; let y ← parseFV y; pure ("ok " ++ b2s (equals x y))
   | "field.eqself", [x] => do let x ← parseFV x; pure ("ok " ++ b2s (equals x x))
+  | "field.exact", _ => some "ok exact"   -- the property's claim for every operation a formula performs
+  | "jac.wrap", fn :: aliasS :: ps =>
+    -- run the regenerated formula in lock-step with the exact twins; report the first wrapping operation
+    match jacFn fn with
+    | none => none
+    | some (idx, n) =>
+      if ps.length != n then none else do
+        let args ← ps.mapM parseFV
+        let alias ← parseAlias aliasS n
+        let (_, w, _) := GoBk.IRW.runFnW GoBk.Gen.CurveIR.prog consts idx args alias
+        pure (match w with | none => "ok safe" | some line => "ok wrap " ++ line)
+  | "jac.wrapdec", [x, ybit] => do
+    let x ← hexNat? x
+    let yb ← if ybit == "1" then some true else if ybit == "0" then some false else none
+    let (_, w, _) := GoBk.IRW.runFnW GoBk.Gen.CurveIR.prog consts GoBk.Gen.CurveIR.fn_decompressPoint
+      [setByteSlice (natBE x)] [0] (fun i => i == 0 && yb)
+    pure (match w with | none => "ok safe" | some line => "ok wrap " ++ line)
+  | "jac.wraponcurve", [x, y] => do
+    let x ← hexNat? x; let y ← hexNat? y
+    let (_, w, _) := GoBk.IRW.runFnW GoBk.Gen.CurveIR.prog consts GoBk.Gen.CurveIR.fn_isOnCurve
+      [setByteSlice (natBE x), setByteSlice (natBE y)] [0, 1]
+    pure (match w with | none => "ok safe" | some line => "ok wrap " ++ line)
   | "jac.consts", [] => some ("ok " ++ fvStr fieldOneV ++ " " ++ fvStr fieldBV ++ " " ++ fvStr betaV)
   | "jac.oncurve", [x, y] => do
     -- hand-modelled head of IsOnCurve: bigAffineToField = SetByteSlice(x.Bytes()), same for y
